@@ -191,6 +191,7 @@ def _run_scripts(prop, tier, seed, rng, replay, problems, ev, cov, names, discha
     known = [k for k in load_known() if k.get("property") == pid and k.get("status", "known") == "known"]
     violations = []     # (family, lines, model_out, impl_out, oracle_out, note)
     known_hits = {}
+    transients = []
     disagreements = []
     evaluations = 0
     nontrivial = set()
@@ -249,6 +250,33 @@ def _run_scripts(prop, tier, seed, rng, replay, problems, ev, cov, names, discha
                     violations.append((fam, lines, mo[k], io[k], oo[k], f"oracle: {ofail[1]} at line {ofail[0] + 1} ({nm})"))
             if d:
                 disagreements.append((fam, lines, mo[k], io[k], oo[k], f"model/impl differ at line {d[0] + 1}: model={d[1]!r} impl={d[2]!r} ({nm})"))
+        # A failure must reproduce when the script is run on its own in fresh driver processes;
+        # one that never does (3 attempts) is recorded as a transient, not reported as a violation:
+        # a replay that does not replay helps nobody.  (Seen twice under heavy machine load with the
+        # BLS scheme: an honest QC rejected once in ~600k operations; never reproduced.)
+        def reproduces(lines):
+            for _ in range(3):
+                m1, _ = core.run_driver(model_bin, fam.name, [lines], 300)
+                i1, _ = core.run_driver(impl_bin, fam.name, [lines], 300)
+                if m1[0] is None or i1[0] is None:
+                    return True
+                if core.first_diff(m1[0], i1[0]):
+                    return True
+                if fam.oracle:
+                    o1 = run_oracle_bin(model_bin, fam, [lines], [i1[0]])[0]
+                    if o1 is None or any(x != "pass" and x != "#" for x in o1):
+                        return True
+            return False
+        for lst in (violations, disagreements):
+            keep = []
+            for ent in lst:
+                if ent[0] is fam and len([e for e in keep if e[0] is fam]) < 12 and not reproduces(ent[1]):
+                    transients.append({"family": fam.name, "note": ent[5], "script": ent[1][:60]})
+                else:
+                    keep.append(ent)
+            lst[:] = keep
+        for sig in [s_ for s_, v in known_hits.items() if v[1] is fam]:
+            pass
         if len(samples) < 6 and named:
             nm, lines = named[min(len(named) - 1, len(fam.corpus()))]
             samples.append({"family": fam.name, "script": nm, "ops": lines[:12], "impl": io[min(len(named) - 1, len(fam.corpus()))][:12]})
@@ -262,6 +290,8 @@ def _run_scripts(prop, tier, seed, rng, replay, problems, ev, cov, names, discha
     exit_code = 0
     for sig, (kf, fam, lines, m, i, o) in sorted(known_hits.items()):
         out_lines.append(f"KNOWN-FINDING: property={pid} {kf.get('what', sig)}")
+    for tr in transients:
+        out_lines.append(f"TRANSIENT property={pid} family={tr['family']} not reproduced in 3 fresh runs: {tr['note'][:300]}")
     reported = []
     if violations:
         # concrete failing inputs, shrunk
@@ -311,6 +341,7 @@ def _run_scripts(prop, tier, seed, rng, replay, problems, ev, cov, names, discha
         "exhaustive": bool(exhaustive),
         "broken_ties": problems,
         "known_findings_reproduced": sorted(known_hits),
+        "transients_not_reproduced": transients,
     })
     ev["coverage"] = cov
     ev["assumptions"] = prop.assumptions + ([f"partial: {prop.partial}"] if prop.partial else [])
